@@ -217,7 +217,9 @@ class ScrubRec:
     def rehash(self):
         """schedule the hash migration (the array was created with the hash function that is not the best one here)"""
         r = self.a.run("rehash", hashflag=False)
-        self.any("rehash -> rc %d" % r.rc)
+        what = "rehash -> rc %d" % r.rc
+        self.lines.append({"e": "Rehash", "what": what, "state": self.rec.state(), "out": {"rc": r.rc}})
+        self.steps.append(what)
         if r.rc == 0:
             self.kinds.add("rehash")
         return r
